@@ -430,6 +430,17 @@ def sign(x):
     return _map(lambda v: ite(lift(v) > 0, 1, ite(lift(v) < 0, -1, 0)) * (lift(v) * 0 + 1), x)
 
 
+def copysign(a, b):
+    # |a| with the sign of b; over the reals b = 0 counts as +0 (A1: there is no -0.0 in the model)
+    # the sign test forks the path (one polynomial problem per sign instead of an if-then-else term)
+    def one(m, s):
+        m, s = lift(m), lift(s)
+        pos = bool(m >= 0)
+        same = bool(s >= 0) == pos
+        return m if same else -m
+    return _binary(one, a, b)
+
+
 def square(x): return _map(lambda v: v * v, x)
 def negative(x): return -x
 def isfinite(x): return _map(lambda v: SBool(z3.BoolVal(True)), x, DT('b'), 'isfinite(A1: symbolic reals are finite)')
@@ -469,15 +480,26 @@ def mod(a, b): return a % b
 def floor_divide(a, b): return a // b
 
 
-def clip(a, lo, hi):
+def clip(a, lo=None, hi=None, out=None, **kw):
     _log('clip')
+    if kw:
+        raise Unsupported('clip(%s=...)' % ', '.join(kw))
     def f(v):
         if lo is not None:
             v = smax(v, lo)
         if hi is not None:
             v = smin(v, hi)
         return v
-    return _map(f, a)
+    res = _map(f, a)
+    if out is not None:
+        if not isinstance(out, SArr):
+            raise Unsupported('clip(out=) into a non-symbolic array')
+        snap = out._snapshot() if out is a else None          # in-place: read the old elements, not the ones being written
+        if snap is not None:
+            res = SArr(out.shape, lambda idx, snap=snap: f(snap(idx)), out.dtype)
+        out[...] = res
+        return out
+    return res
 
 
 # ------------------------------------------------------------------- structure
